@@ -237,11 +237,14 @@ def transfer_cases(pairs, props_, tier, seed, copy_bufs=(2,), universe='UT'):
                 transfers.append((op, src, dst))
     for op in ('copy_dir', 'move_dir'):
         transfers += [(op, 'a', 'x'), (op, 'a_b', 'x_b'), (op, 'f', 'x'), (op, 'a_b_c', 'x_b_c')]
+    # between two instances the destination may carry the *same path text* as the source (or lie textually below it)
+    same_text = [('copy_dir', 'a', 'a'), ('move_dir', 'a', 'a'), ('copy_file', 'f', 'f'), ('move_file', 'a_b', 'a_b'), ('copy_dir', 'a_b', 'a_b')]
     cases = []
     rng = random.Random(seed)
     for pair in pairs:
+        two = not pair.startswith('same_')
         for cb in copy_bufs:
             for sh in shs:
                 for ds in dshapes:
-                    cases.append({'pair': pair, 'shape': sh, 'dshape': ds, 'transfers': transfers, 'props': props_, 'copy_buf': cb, 'universe': universe})
+                    cases.append({'pair': pair, 'shape': sh, 'dshape': ds, 'transfers': transfers + (same_text if two and not ds else []), 'props': props_, 'copy_buf': cb, 'universe': universe})
     return cases
